@@ -69,13 +69,13 @@ type sigF struct {
 	Key    int    `json:"key"`
 }
 type tok1F struct {
-	Issuer  int     `json:"issuer"`
-	Life    lifeF   `json:"life"`
-	AuthKey int     `json:"authkey"`
-	Verb    uint32  `json:"verb"`
-	Cnr     int     `json:"cnr"`
-	Objs    []int   `json:"objs"`
-	Sig     *sigF   `json:"sig"`
+	Issuer  int    `json:"issuer"`
+	Life    lifeF  `json:"life"`
+	AuthKey int    `json:"authkey"`
+	Verb    uint32 `json:"verb"`
+	Cnr     int    `json:"cnr"`
+	Objs    []int  `json:"objs"`
+	Sig     *sigF  `json:"sig"`
 }
 type btokF struct {
 	Issuer int   `json:"issuer"`
@@ -127,13 +127,13 @@ type tokCase struct {
 	Out    []int    `json:"out,omitempty"`
 }
 type histEv struct {
-	Tick  bool   `json:"tick"`
-	Epoch uint64 `json:"epoch"`
-	Reset bool   `json:"reset"`
-	ID    int    `json:"id"`
-	WF    bool   `json:"wf"`
-	V1    *tok1F `json:"v1,omitempty"`
-	SigOK bool   `json:"sigok"`
+	Tick    bool   `json:"tick"`
+	Epoch   uint64 `json:"epoch"`
+	Reset   bool   `json:"reset"`
+	ID      int    `json:"id"`
+	WF      bool   `json:"wf"`
+	V1      *tok1F `json:"v1,omitempty"`
+	SigOK   bool   `json:"sigok"`
 	ReqVerb uint32 `json:"reqverb"`
 	ReqCnr  int    `json:"reqcnr"`
 	ReqObj  int    `json:"reqobj"`
@@ -457,7 +457,7 @@ type v1Req struct {
 var v1Devs = []string{"nbf_future", "iat_future", "expired", "verb_other", "cnr_other", "obj_other", "issuer_other", "random"}
 
 // genV1 builds a token valid for the request except for at most one deviation applied before signing.
-func genV1(g *rng, w *tworld, u *tuniverse, epoch uint64, rq v1Req, dev string) *protosession.SessionToken {
+func genV1(g *rng, w *tworld, u *tuniverse, epoch uint64, rq v1Req, dev string, forceVerb session.ObjectVerb) *protosession.SessionToken {
 	var t session.Object
 	t.SetID(uuid.New())
 	t.SetAuthKey((*neofsecdsa.PublicKey)(&pick(g, u.actors[1:]).key.PublicKey))
@@ -515,6 +515,9 @@ func genV1(g *rng, w *tworld, u *tuniverse, epoch uint64, rq v1Req, dev string) 
 		t.SetExp(epoch - 2 + uint64(r5c))
 		t.BindContainer(pick(g, u.cnrs))
 		t.ForVerb(session.ObjectVerb(1 + r7))
+	}
+	if forceVerb != 0 {
+		t.ForVerb(forceVerb)
 	}
 	if g.p(12) {
 		inv, ver, iss := n3Witness(g)
@@ -1135,7 +1138,7 @@ func tokensMain(args []string) {
 			if g.p(45) {
 				dev = pick(g, v1Devs)
 			}
-			m := genV1(g, w, u, w.epoch, rq, dev)
+			m := genV1(g, w, u, w.epoch, rq, dev, 0)
 			base := false
 			if dev == "" {
 				_, err := svc.VerifySessionV1TokenMessage(m, rq.verb, rq.cnr, rq.obj)
@@ -1324,6 +1327,25 @@ func tokensMain(args []string) {
 					_ = enc.Encode(c)
 				}
 			}
+		}
+	}
+
+	// ---- every (token verb, request verb) pair once, everything else valid
+	for tv := 1; tv <= 7; tv++ {
+		for rv := 1; rv <= 7; rv++ {
+			w.epoch, w.n3ok, w.n3reg = 10, true, map[string]bool{}
+			reset()
+			rq := v1Req{verb: session.ObjectVerb(rv), cnr: pick(g, u.cnrs), obj: pick(g, u.oids)}
+			m := genV1(g, w, u, w.epoch, rq, "", session.ObjectVerb(tv))
+			x := newIndexer(u, append(cidsOfMessage(m), rq.cnr))
+			c := tokCase{Kind: "v1", Epoch: w.epoch, ReqVerb: uint32(rq.verb), Mut: "", NNS: [][2]int{}}
+			f, wf, ok, n3 := x.v1Facts(w, m)
+			c.V1, c.WF, c.SigOK, c.N3OK = &f, wf, []bool{ok}, []bool{n3}
+			c.ReqCnr, c.ReqObj = x.cids[rq.cnr], x.oids[rq.obj]
+			c.KU = x.kuList()
+			_, err := svc.VerifySessionV1TokenMessage(m, rq.verb, rq.cnr, rq.obj)
+			c.Res = resClass(err)
+			_ = enc.Encode(c)
 		}
 	}
 
